@@ -1,5 +1,7 @@
 import TinyFlux.Generated.Footprint
 import TinyFlux.Model.Footprint
+import TinyFlux.Generated.CallGraph
+import TinyFlux.Model.CallGraph
 
 /-! # C01: the state the code keeps is the state the Model has (index, index result, database)
 
@@ -20,5 +22,23 @@ theorem no_hidden_state :
     Generated.moduleState.lookup "index" = Model.Footprint.modules.lookup "index" ∧
     Generated.moduleState.lookup "database" = Model.Footprint.modules.lookup "database" ∧
     Generated.classState.map (·.1) = Model.Footprint.classNames := by decide
+
+/-- every function of these classes / modules calls, catches and raises exactly what it did when the Model was
+    written against it and validated (`Model/CallGraph.lean`); and there is no table the Model does not know -/
+theorem code_uses_the_modelled_primitives :
+    Generated.calls_index_Index = Model.CallGraph.calls_index_Index ∧
+    Generated.calls_index_IndexResult = Model.CallGraph.calls_index_IndexResult ∧
+    Generated.calls_index_toplevel = Model.CallGraph.calls_index_toplevel ∧
+    Generated.calls_database_TinyFlux = Model.CallGraph.calls_database_TinyFlux ∧
+    Generated.calls_database_toplevel = Model.CallGraph.calls_database_toplevel ∧
+    Generated.calls_queries_CompoundQuery = Model.CallGraph.calls_queries_CompoundQuery ∧
+    Generated.calls_queries_SimpleQuery = Model.CallGraph.calls_queries_SimpleQuery ∧
+    Generated.calls_queries_BaseQuery = Model.CallGraph.calls_queries_BaseQuery ∧
+    Generated.calls_queries_TagQuery = Model.CallGraph.calls_queries_TagQuery ∧
+    Generated.calls_queries_FieldQuery = Model.CallGraph.calls_queries_FieldQuery ∧
+    Generated.calls_queries_MeasurementQuery = Model.CallGraph.calls_queries_MeasurementQuery ∧
+    Generated.calls_queries_TimeQuery = Model.CallGraph.calls_queries_TimeQuery ∧
+    Generated.calls_queries_toplevel = Model.CallGraph.calls_queries_toplevel ∧
+    Generated.callGraphTables = Model.CallGraph.callGraphTables := ⟨rfl, rfl, rfl, rfl, rfl, rfl, rfl, rfl, rfl, rfl, rfl, rfl, rfl, rfl⟩
 
 end TinyFlux.Props.C01
